@@ -24,6 +24,7 @@
 (* Signal1 at Total = 0; "hup" / "quit" ~ UntrappedSignal; "backpr" ~      *)
 (* ReportBlocks / two-step writes; "full" (/dev/full) ~ Aggregator!        *)
 (* WriteFails: NoSilentLoss at process level = the process FAILS;          *)
+(* "nodir": a destination that cannot be opened - the process fails;       *)
 (* "grpc", "mixed": the plain rule with another gun / two aggregator kinds.*)
 (* Which exits may lose data - exactly Shutdown!Exempt: a logged timeout,  *)
 (* "Another signal received" after TWO signals, death by SIGHUP/SIGQUIT,   *)
@@ -76,6 +77,10 @@ Exit == /\ Ev.ev = "Exit"
               THEN Flag(Ev.agg_returned, "ExitedBeforeAggregatorReturned")
                    \cup Flag(Ev.entered - Ev.dropped > 0 => Ev.agg_err # "", "SinkFailureNotReported")
                    \cup Flag(Ev.agg_err # "" => Ev.status # 0, "SinkFailureExitZero")
+              ELSE IF scen = "nodir"
+              \* the destination cannot be opened (phout: when the config is decoded; file sink: when the aggregator's Run
+              \* starts): pandora does not pretend that it wrote a result
+              THEN Flag(Ev.status # 0, "UnwritableDestinationExitZero")
               ELSE IF fail
               \* one pool failed by itself ~ Shutdown!FailDelivered, main in "errwait"; with or without one signal
               \* while the started tasks are awaited: everything whose Report had returned before the failure is
